@@ -3,9 +3,17 @@
 use crate::core::ExecMode;
 use crate::sched::Kind;
 use crate::simrt::{run_scheduled, SchedFailure};
+use dmntk_verif_sync::atomic::{AtomicBool, AtomicUsize as SimAtomicUsize, Ordering as SimOrdering};
 use dmntk_verif_sync::{Condvar, Mutex, OnceLock, RwLock};
 use std::sync::atomic::{AtomicUsize, Ordering};
 use std::sync::Arc;
+
+#[derive(Clone, Copy)]
+enum Expect {
+  Clean,
+  Deadlock,
+  Panic,
+}
 
 fn kinds() -> Vec<Kind> {
   vec![Kind::Random, Kind::Pct(1), Kind::Pct(3), Kind::Urw]
@@ -14,28 +22,51 @@ fn kinds() -> Vec<Kind> {
 /// Returns the number of failed expectations.
 pub fn run(iterations: u64) -> u64 {
   let mut bad = 0;
-  let mut check = |name: &str, expect_deadlock: bool, f: fn()| {
+  let mut check = |name: &str, expect: Expect, f: fn()| {
     let mut deadlocks = 0;
-    let mut other = 0;
+    let mut panics = 0;
+    let mut bound_fair = 0;
+    let mut bound_unfair = 0;
     for i in 0..iterations {
       for k in kinds() {
-        let r = run_scheduled(&k, 1000 + i, &ExecMode::Fresh, 200_000, f);
+        let r = run_scheduled(&k, 1000 + i, &ExecMode::Fresh, 50_000, f);
         match r.failure {
           None => {}
           Some(SchedFailure::Deadlock(_)) => deadlocks += 1,
-          Some(_) => other += 1,
+          Some(SchedFailure::StepBound) => {
+            if k == Kind::Random {
+              bound_fair += 1
+            } else {
+              bound_unfair += 1
+            }
+          }
+          Some(SchedFailure::Panic(_)) => panics += 1,
         }
       }
     }
     let total = iterations * kinds().len() as u64;
-    let ok = other == 0 && if expect_deadlock { deadlocks > 0 } else { deadlocks == 0 };
-    println!("shim {:<44} executions={} deadlocks={} other-failures={} -> {}", name, total, deadlocks, other, if ok { "ok" } else { "UNEXPECTED" });
+    let ok = bound_fair == 0
+      && match expect {
+        Expect::Clean => deadlocks == 0 && panics == 0,
+        Expect::Deadlock => deadlocks > 0 && panics == 0,
+        Expect::Panic => panics > 0 && deadlocks == 0,
+      };
+    println!(
+      "shim {:<52} executions={} deadlocks={} panics={} step-bound(fair/unfair scheduler)={}/{} -> {}",
+      name,
+      total,
+      deadlocks,
+      panics,
+      bound_fair,
+      bound_unfair,
+      if ok { "ok" } else { "UNEXPECTED" }
+    );
     if !ok {
       bad += 1;
     }
   };
   // 1. producer / consumer over Mutex + Condvar: never deadlocks, every item arrives
-  check("mutex+condvar producer/consumer", false, || {
+  check("mutex+condvar producer/consumer", Expect::Clean, || {
     let q = Arc::new((Mutex::new(Vec::<u32>::new()), Condvar::new()));
     let q2 = Arc::clone(&q);
     let producer = shuttle::thread::spawn(move || {
@@ -57,7 +88,7 @@ pub fn run(iterations: u64) -> u64 {
     assert_eq!(got, 4);
   });
   // 2. re-entrant readers without a writer: never deadlocks
-  check("re-entrant read locks, no writer", false, || {
+  check("re-entrant read locks, no writer", Expect::Clean, || {
     let l = Arc::new(RwLock::new(7u32));
     let hs: Vec<_> = (0..3)
       .map(|_| {
@@ -75,7 +106,7 @@ pub fn run(iterations: u64) -> u64 {
     }
   });
   // 3. a writer queued behind a re-entrant reader: deadlocks under some schedule (writer preference)
-  check("re-entrant read lock with a queued writer", true, || {
+  check("re-entrant read lock with a queued writer", Expect::Deadlock, || {
     let l = Arc::new(RwLock::new(0u32));
     let l2 = Arc::clone(&l);
     let w = shuttle::thread::spawn(move || {
@@ -89,7 +120,7 @@ pub fn run(iterations: u64) -> u64 {
     w.join().unwrap();
   });
   // 4. OnceLock whose initialiser passes scheduling points: initialised exactly once, nobody hangs
-  check("OnceLock with a yielding initialiser", false, || {
+  check("OnceLock with a yielding initialiser", Expect::Clean, || {
     static RUNS: AtomicUsize = AtomicUsize::new(0);
     RUNS.store(0, Ordering::SeqCst);
     let cell = Arc::new(OnceLock::<u32>::new());
@@ -115,7 +146,7 @@ pub fn run(iterations: u64) -> u64 {
     assert_eq!(RUNS.load(Ordering::SeqCst), 1);
   });
   // 5. lock order inversion of two mutexes: deadlocks under some schedule
-  check("two mutexes taken in opposite orders", true, || {
+  check("two mutexes taken in opposite orders", Expect::Deadlock, || {
     let a = Arc::new(Mutex::new(0u32));
     let b = Arc::new(Mutex::new(0u32));
     let (a2, b2) = (Arc::clone(&a), Arc::clone(&b));
@@ -130,7 +161,7 @@ pub fn run(iterations: u64) -> u64 {
     t.join().unwrap();
   });
   // 6. a panic under a write guard poisons, the others carry on (no shuttle call while unwinding)
-  check("panic under a write guard poisons, others go on", false, || {
+  check("panic under a write guard poisons, others go on", Expect::Clean, || {
     let l = Arc::new(RwLock::new(0u32));
     let l2 = Arc::clone(&l);
     let t = shuttle::thread::spawn(move || {
@@ -144,6 +175,49 @@ pub fn run(iterations: u64) -> u64 {
     let _ = l.read().map(|g| *g).unwrap_or_else(|p| *p.into_inner());
     t.join().unwrap();
     assert!(l.is_poisoned());
+  });
+  // 7. a spin lock whose critical section passes a scheduling point: the spinner lets the holder run
+  check("spin lock on an atomic around a scheduling point", Expect::Clean, || {
+    static BUSY: AtomicBool = AtomicBool::new(false);
+    BUSY.store(false, SimOrdering::SeqCst);
+    let m = Arc::new(Mutex::new(0u32));
+    let hs: Vec<_> = (0..2)
+      .map(|_| {
+        let m = Arc::clone(&m);
+        shuttle::thread::spawn(move || {
+          while BUSY.swap(true, SimOrdering::Acquire) {
+            std::hint::spin_loop();
+          }
+          *m.lock().unwrap() += 1;
+          BUSY.store(false, SimOrdering::Release);
+        })
+      })
+      .collect();
+    for h in hs {
+      h.join().unwrap();
+    }
+    assert_eq!(*m.lock().unwrap(), 2);
+  });
+  // 8. check-then-act on an atomic flag: both tasks pass the check under some schedule
+  check("check-then-act on an atomic flag", Expect::Panic, || {
+    static CLAIMED: AtomicBool = AtomicBool::new(false);
+    static OWNERS: SimAtomicUsize = SimAtomicUsize::new(0);
+    CLAIMED.store(false, SimOrdering::SeqCst);
+    OWNERS.store(0, SimOrdering::SeqCst);
+    let hs: Vec<_> = (0..2)
+      .map(|_| {
+        shuttle::thread::spawn(|| {
+          if !CLAIMED.load(SimOrdering::Acquire) {
+            CLAIMED.store(true, SimOrdering::Release);
+            OWNERS.fetch_add(1, SimOrdering::SeqCst);
+          }
+        })
+      })
+      .collect();
+    for h in hs {
+      h.join().unwrap();
+    }
+    assert_eq!(OWNERS.load(SimOrdering::SeqCst), 1, "dmnsim shim selftest: expected under some schedule");
   });
   bad
 }
